@@ -1,0 +1,20 @@
+// Copyright ©2011-2012 The bíogo Authors. All rights reserved.
+// Use of this source code is governed by a BSD-style
+// license that can be found in the LICENSE file.
+
+//go:build verif
+// +build verif
+
+package concurrent
+
+// VerifHook, when non-nil, is called at every marked step with the step name.
+// It is only compiled with the verif build tag and exists so that a test
+// harness can hold a goroutine at a step. It must be set before the types of
+// this package are used.
+var VerifHook func(step string)
+
+func verifStep(step string) {
+	if h := VerifHook; h != nil {
+		h(step)
+	}
+}
